@@ -44,6 +44,11 @@ pub enum Custom {
     Append,
     NoFollow,
     Directory,
+    /// access-mode bits inside the custom flag word: the OS-facing API (std) ignores them, the access mode
+    /// is chosen by read()/write() alone
+    AccWrOnly,
+    AccRdWr,
+    AccRdWrAppend,
 }
 
 impl Custom {
@@ -53,6 +58,9 @@ impl Custom {
             Custom::Append => libc::O_APPEND,
             Custom::NoFollow => libc::O_NOFOLLOW,
             Custom::Directory => libc::O_DIRECTORY,
+            Custom::AccWrOnly => libc::O_WRONLY,
+            Custom::AccRdWr => libc::O_RDWR,
+            Custom::AccRdWrAppend => libc::O_RDWR | libc::O_APPEND,
         }
     }
 }
